@@ -263,6 +263,12 @@ func (p *proverCtx) lenDefs(lv lvar) {
 		p.addFact(linVar(lv).sub(d), "len(make)")
 		p.addFact(d.sub(linVar(lv)), "len(make)")
 	case *ssa.Const:
+		if x.Value == nil {
+			if _, isSlice := x.Type().Underlying().(*types.Slice); isSlice {
+				p.addFact(linVar(lv), "len(nil slice) = 0")
+				p.addFact(linVar(lv).scale(-1), "len(nil slice) = 0")
+			}
+		}
 		if s, ok := constString(x); ok {
 			p.addFact(linVar(lv).addConst(-int64(len(s))), "len(const string)")
 			p.addFact(linVar(lv).scale(-1).addConst(int64(len(s))), "len(const string)")
@@ -286,6 +292,24 @@ func (p *proverCtx) lenDefs(lv lvar) {
 			s := a.add(bb)
 			p.addFact(linVar(lv).sub(s), "len(append)")
 			p.addFact(s.sub(linVar(lv)), "len(append)")
+		}
+		// hash.Hash.Sum(b) appends the digest: len = len(b) + Size, where the size is known when the hash is
+		// visibly a SHA-256 / SHA-512 or an HMAC over one (hmac.New(sha256.New, key))
+		if x.Call.IsInvoke() && x.Call.Method.Name() == "Sum" && len(x.Call.Args) == 1 {
+			if sz, ok := digestSize(x.Call.Value, 0); ok {
+				a := p.varFor(lvar{v: x.Call.Args[0], kind: 'l'}).addConst(sz)
+				p.addFact(linVar(lv).sub(a), "len(Hash.Sum(b)) = len(b) + digest size")
+				p.addFact(a.sub(linVar(lv)), "len(Hash.Sum(b)) = len(b) + digest size")
+			}
+		}
+		// the result of a small unexported helper with one slice result: its length when every return has the same
+		if sc := x.Call.StaticCallee(); sc != nil && x.Call.Signature().Results().Len() == 1 && p.depth < 3 {
+			if h := plainHelper(sc); h != nil && len(h.Blocks) <= 8 {
+				if k, ok := p.c.resultLen(h, 0); ok {
+					p.addFact(linVar(lv).addConst(-k), "summary: len(result) of "+fnName(sc))
+					p.addFact(linVar(lv).scale(-1).addConst(k), "summary: len(result) of "+fnName(sc))
+				}
+			}
 		}
 		// library results with a documented length
 		switch callQName(&x.Call) {
@@ -1840,4 +1864,36 @@ func singleStoreValue(ld *ssa.UnOp) ssa.Value {
 		return nil
 	}
 	return st.Val
+}
+
+// digestSize: the digest size of the hash value h when it is visibly sha256.New() / sha512.New() or
+// hmac.New(sha256.New | sha512.New, _).
+func digestSize(h ssa.Value, depth int) (int64, bool) {
+	if depth > 3 {
+		return 0, false
+	}
+	switch x := h.(type) {
+	case *ssa.MakeInterface:
+		return digestSize(x.X, depth+1)
+	case *ssa.ChangeInterface:
+		return digestSize(x.X, depth+1)
+	case *ssa.Call:
+		switch callQName(&x.Call) {
+		case "crypto/sha256.New":
+			return 32, true
+		case "crypto/sha512.New":
+			return 64, true
+		case "crypto/hmac.New":
+			switch fn := x.Call.Args[0].(type) {
+			case *ssa.Function:
+				switch fn.String() {
+				case "crypto/sha256.New":
+					return 32, true
+				case "crypto/sha512.New":
+					return 64, true
+				}
+			}
+		}
+	}
+	return 0, false
 }
